@@ -96,6 +96,18 @@ func And(legs ...*hydrapb.TreasureFilter) *hydrapb.FilterGroup {
 	return &hydrapb.FilterGroup{Logic: hydrapb.FilterLogic_AND, Filters: legs}
 }
 
+// CapUnlocked: at most max records WITHOUT a "lock" field (a negative filter: lock IS_EMPTY).
+func CapUnlocked(max int32) *hydrapb.Cap {
+	return &hydrapb.Cap{Filter: And(&hydrapb.TreasureFilter{BytesFieldPath: strp("lock"), Operator: hydrapb.Relational_IS_EMPTY}), MaxMatching: max}
+}
+
+func OpSetLock() []*hydrapb.PatchOp {
+	return []*hydrapb.PatchOp{{Op: hydrapb.PatchOp_SET, Path: "lock", Value: Enc("x")}}
+}
+func OpDelLock() []*hydrapb.PatchOp {
+	return []*hydrapb.PatchOp{{Op: hydrapb.PatchOp_DELETE, Path: "lock"}}
+}
+
 func CapOf(status string, max int32) *hydrapb.Cap {
 	return &hydrapb.Cap{Filter: And(FEq("status", status)), MaxMatching: max}
 }
@@ -106,6 +118,7 @@ type Rec struct {
 	Grp    int64
 	Exp    int64 // unix nano, 0 = none
 	Cre    int64
+	Lock   bool // body has a non-empty "lock" field
 }
 
 // Seed creates (or overwrites) a record. exp zero => no expiry.
@@ -133,9 +146,10 @@ func (e *Env) SeedAnchor(swamp string) { e.Seed(swamp, Anchor, "anchor", -1, tim
 type PatchItem struct {
 	Key    string
 	Status string
-	Touch  bool // instead of setting status: SET touched = 1 (leaves status as it is / as seeded)
-	Meta   bool // the patch carries its own per-key Meta (replaces the request-level Meta)
-	Cond   int  // per-key Condition: 0 none, 1 one that always holds, 2 one that never holds
+	Touch  bool               // instead of setting status: SET touched = 1 (leaves status as it is / as seeded)
+	Meta   bool               // the patch carries its own per-key Meta (replaces the request-level Meta)
+	Cond   int                // per-key Condition: 0 none, 1 one that always holds, 2 one that never holds
+	RawOps []*hydrapb.PatchOp // when set: these ops instead of the status / touched op
 }
 
 // PatchStatus runs one PatchTreasures batch. create => CreateIfNotExist.
@@ -152,6 +166,9 @@ func (e *Env) PatchStatusSeed(swamp string, items []PatchItem, cap *hydrapb.Cap,
 			op = &hydrapb.PatchOp{Op: hydrapb.PatchOp_SET, Path: "touched", Value: Enc(int64(1))}
 		}
 		tp := &hydrapb.TreasurePatch{Key: it.Key, Ops: []*hydrapb.PatchOp{op}}
+		if it.RawOps != nil && !it.Touch {
+			tp.Ops = it.RawOps
+		}
 		if it.Meta {
 			tp.Meta = &hydrapb.PatchMeta{SetUpdatedAt: true, SetUpdatedBy: strp("per-key")}
 		}
@@ -248,8 +265,10 @@ type PatchedRec struct {
 
 type PEReq struct {
 	HowMany   int32
-	NewStatus string     // SET status
-	NewExp    *time.Time // nil: leave; zero time: clear; else set
+	NewStatus string             // SET status
+	NewExp    *time.Time         // nil: leave; zero time: clear; else set
+	RawOps    []*hydrapb.PatchOp // when set: these ops instead of SET status
+	CondFail  bool               // request Condition that no record meets (every selected record is rejected)
 	Filters   *hydrapb.FilterGroup
 	Cap       *hydrapb.Cap
 }
@@ -259,6 +278,12 @@ func (e *Env) PatchExpired(swamp string, q PEReq) ([]PatchedRec, bool, error) {
 		Filters: q.Filters, Cap: q.Cap}
 	if q.NewStatus != "" {
 		in.Ops = []*hydrapb.PatchOp{{Op: hydrapb.PatchOp_SET, Path: "status", Value: Enc(q.NewStatus)}}
+	}
+	if q.RawOps != nil {
+		in.Ops = q.RawOps
+	}
+	if q.CondFail {
+		in.Condition = &hydrapb.PatchCondition{Path: "no_such_field", Operator: hydrapb.PatchCondition_EXISTS}
 	}
 	in.Meta = &hydrapb.PatchMeta{SetUpdatedAt: true}
 	if q.NewExp != nil {
@@ -300,6 +325,9 @@ func recOf(t *hydrapb.Treasure) Rec {
 		if msgpack.Unmarshal(b[2:], &m) == nil {
 			if s, ok := m["status"].(string); ok {
 				rc.Status = s
+			}
+			if l, ok := m["lock"].(string); ok && l != "" {
+				rc.Lock = true
 			}
 			switch g := m["grp"].(type) {
 			case int64:
